@@ -286,6 +286,18 @@ PROPS.update({
         "Trusted: Lean kernel; the scripted backend stands for massdb.v1's Delete (os.Remove of the two files of that space, refused "
         "while plotting: massdb.v1.go)."),
 })
+# C01 / C04: the parameter block and the box format of snacl (what the keystore file's authenticated fields are made of)
+SNACL_TEXT = (" snacl (Model/Snacl, Props/C01Snacl): the 88-byte parameter block round-trips for every well-formed parameter set and determines "
+    "it, any other length is rejected; DeriveKey returns a key only if its digest is the stored one and accepts the creating passphrase; "
+    "Decrypt(Encrypt(m)) = m, fewer than 24 bytes are malformed, a box the library does not open is an error. The harness also exercises "
+    "the library laws the wallet theorems assume: every single-byte modification of a box and every other key is rejected, DeriveKey refuses "
+    "another passphrase and a tampered block.")
+for _p in ("C01", "C04"):
+    PROPS[_p]["props"] = PROPS[_p]["props"] + ["MassVerif.Props.C01Snacl"]
+    PROPS[_p]["drivers_mod"] = PROPS[_p]["drivers_mod"] + ["MassVerif.Driver.Snacl"]
+    PROPS[_p]["harnesses"] = PROPS[_p]["harnesses"] + [{"name": "snacl", "pkg": "harness/snacl", "driver": "MassVerif/Driver/Snacl.lean",
+                                  "quick": {"n": 20}, "thorough": {"n": 400}, "search": {"n": 200}, "replayable": False}]
+    PROPS[_p]["level_text"] += SNACL_TEXT
 # C09: "state queries and flag filters agree" on the enum helpers translated from the source on every run
 PROPS["C09"]["props"].append("MassVerif.Props.C09Flags")
 PROPS["C09"]["level_text"] += (" Enum helpers (Props/C09Flags over Generated/Engine.lean, which go/extract/translate.go re-translates from "
